@@ -218,7 +218,7 @@ var c16singleOps = [][]c16w.Op{{{Op: "fetch", Ver: "v0.0.1"}, {Op: "modfile", Ve
 
 func init() {
 	register("C16", "fault_enumeration", func(c *Ctx) {
-		c.Rule = "module of 6 files in 4 directories served by an in-process registry; (1) every hook point n of Fetch+ModFile (verifhook: between all file-system effects incl. each extracted file) is a crash point: kill at n → inspect (availability invariant, zip/mod absent-or-complete) → clean run must succeed with exact content → inspect complete; (2) crash pairs (second crash inside the recovery run); (3) registry faults over a loopback OCI HTTP stack (connection lost mid-body at several offsets, consistent short body, error mid-body, 500, flipped byte, on zip and module-file blobs) each followed by inspect + clean run; (4) k processes × m goroutines (shared and separate Cache objects) running Fetch/FetchFromCache/ModFile on two versions with hook delays and one process killed at a PRNG hook: per-op call/return events with CLOCK_MONOTONIC stamps, open operations stay open; offline checks: content, ≤1 zip download per (Cache, version), porcupine linearizability per version; race detector; (5) strace kill-injection at every file-system syscall of the worker's thread as hook-independent cross-check. Non-trivial = distinct (crash point | pair | fault | concurrent history) that left the cache in a non-empty intermediate state or produced >1 interleaved operation."
+		c.Rule = "module of 6 files in 4 directories served by an in-process registry; (1) every hook point n of Fetch+ModFile (verifhook: between all file-system effects incl. each extracted file) is a crash point: kill at n → inspect (availability invariant, zip/mod absent-or-complete) → clean run must succeed with exact content → inspect complete; (2) crash pairs (second crash inside the recovery run); (3) registry faults over a loopback OCI HTTP stack (connection lost mid-body at several offsets, consistent short body, error mid-body, 500, flipped byte, on zip and module-file blobs) each followed by inspect + clean run; (4) k processes × m goroutines (shared and separate Cache objects) running Fetch/FetchFromCache/ModFile on two versions with hook delays and one process killed at a PRNG hook: per-op call/return events with CLOCK_MONOTONIC stamps, open operations stay open; offline checks: content, ≤1 zip download per (Cache, version), porcupine linearizability per version; race detector; (5) strace kill-injection at every file-system syscall of the worker's thread as hook-independent cross-check; (6) lock-free readers: 2-4 reader processes polling FetchFromCache (and the fast path of Fetch) under strace with every stat-family call delayed 1.5-9 ms on exit, so that a reader sits between two of its own checks most of the time, against a writer whose extraction is slowed at the unzip hooks: whatever a reader is told is available must be complete at that moment (same history checks). Non-trivial = distinct (crash point | pair | fault | concurrent history) that left the cache in a non-empty intermediate state or produced >1 interleaved operation."
 		c.Assume = []string{"crashes are process kills (page cache survives): ordering of effects against process death, not power loss", "each process has its own in-memory registry with byte-identical deterministic content", "linearizability model: per version state absent/present; Fetch → present with full content; FetchFromCache found iff present; an operation of a killed process may or may not have taken effect"}
 		if c.Replay != nil {
 			c.Inconclusive("replay by seed: rerun ./check C16 with the recorded seed (crash points are deterministic)")
@@ -479,6 +479,9 @@ func init() {
 		c16strace(c, plain, base, mkspec, addClasses)
 
 		c.Set("phase5_s", time.Since(t0).Seconds())
+		// ---- (6) lock-free readers with slow system calls against a slow writer
+		c16slowReaders(c, plain, base, vers, mkspec, hashes, &hmu)
+		c.Set("phase6_s", time.Since(t0).Seconds())
 		c.Set("crash_outcome_classes", classCount)
 		c.Sample(map[string]any{"hook_sequence": hooks})
 	})
@@ -722,4 +725,104 @@ func c16strace(c *Ctx, bin, base string, mkspec func(cache, mode string, ops [][
 	})
 	c.Set("strace_kill_points", killedAt)
 	_ = rand.IntN
+}
+
+// c16slowReaders: FetchFromCache and the fast path of Fetch decide without the lock whether a module directory
+// is available, from a sequence of stat calls.  Reader processes run under strace with every stat-family call
+// delayed by some milliseconds on exit (so a reader spends most of its time *between* two of its own checks),
+// while a writer process whose extraction is slowed down at the unzip hooks fetches the version.  Whatever the
+// readers are told is available must be complete at that moment.
+func c16slowReaders(c *Ctx, plain, base string, vers []string, mkspec func(cache, mode string, ops [][]c16w.Op) c16w.Spec, hashes map[string]struct{}, hmu *sync.Mutex) {
+	if _, err := exec.LookPath("strace"); err != nil {
+		c.Set("slow_readers", "strace not available")
+		return
+	}
+	rounds := c.N(8, 80)
+	var foundEarly, polls, roundsWithOverlap int64
+	var smu sync.Mutex
+	c.Par(rounds, func(h int) {
+		r := c.RNG(fmt.Sprintf("slow-%d", h))
+		cache := c16newCache(base)
+		defer c16rm(cache)
+		ver := vers[r.IntN(len(vers))]
+		nReaders := 2 + r.IntN(3)
+		results := make([]c16run, nReaders+1)
+		var wg sync.WaitGroup
+		for p := 0; p < nReaders; p++ {
+			var ops []c16w.Op
+			delay := []int{1500, 4000, 9000}[r.IntN(3)]
+			// enough polls to span the writer's start-up skew and its slowed-down extraction
+			n := (1300 + r.IntN(600)) * 1000 / delay
+			for i := 0; i < n; i++ {
+				ops = append(ops, c16w.Op{Op: "fromcache", Ver: ver})
+			}
+			if r.IntN(2) == 0 {
+				// the lock-free fast path of Fetch
+				ops = append(ops, c16w.Op{Op: "fetch", Ver: ver}, c16w.Op{Op: "fromcache", Ver: ver})
+			}
+			sp := mkspec(cache, "run", [][]c16w.Op{ops})
+			sp.Seed = c.Seed*1000 + int64(h*10+p)
+			wrap := []string{"strace", "-f", "-o", "/dev/null", "-e", "trace=newfstatat,statx,fstat", "-e", fmt.Sprintf("inject=newfstatat,statx:delay_exit=%d", delay)}
+			wg.Add(1)
+			go func(p int, sp c16w.Spec) {
+				defer wg.Done()
+				results[p] = c16exec(c, plain, sp, nil, wrap, base)
+			}(p, sp)
+		}
+		// the writer starts while the readers are polling
+		wsp := mkspec(cache, "run", [][]c16w.Op{{{Op: "fetch", Ver: ver}, {Op: "fromcache", Ver: ver}}})
+		wsp.SkewUS = []int{150000 + r.IntN(250000)}
+		wenv := []string{fmt.Sprintf("VERIF_HOOK_DELAY=unzip.afterOpenFile=%d,unzip.afterMkdir=%d,fetch.afterPartial=%d,fetch.afterUnzip=%d", 15000+r.IntN(20000), r.IntN(20000), r.IntN(3000), r.IntN(20000))}
+		wg.Add(1)
+		go func() {
+			defer wg.Done()
+			results[nReaders] = c16exec(c, plain, wsp, wenv, nil, base)
+		}()
+		wg.Wait()
+		c.Eval(1)
+		// how much the readers saw: polls that returned before/after the writer's fetch returned
+		var wret int64
+		for _, e := range results[nReaders].events {
+			if e["t"] == "ret" && e["op"] == "fetch" {
+				wret = int64(e["ts"].(float64))
+			}
+		}
+		var np, before, after int64
+		for _, rr := range results[:nReaders] {
+			for _, e := range rr.events {
+				if e["t"] == "ret" && e["op"] == "fromcache" {
+					np++
+					if ts := int64(e["ts"].(float64)); ts < wret {
+						before++
+					} else {
+						after++
+					}
+					if f, _ := e["found"].(bool); f {
+						if ts := int64(e["ts"].(float64)); ts < wret {
+							smu.Lock()
+							foundEarly++
+							smu.Unlock()
+						}
+					}
+				}
+			}
+		}
+		smu.Lock()
+		polls += np
+		if before > 0 && after > 0 {
+			roundsWithOverlap++
+		}
+		smu.Unlock()
+		if before > 0 && after > 0 {
+			c.Nontrivial(fmt.Sprintf("slow-readers|%d", h))
+		}
+		c16checkHistory(c, 100000+h, results, -1, hashes, hmu)
+	})
+	c.Set("slow_reader_rounds", rounds)
+	c.Set("slow_reader_polls", polls)
+	c.Set("slow_reader_rounds_overlapping_the_fetch", roundsWithOverlap)
+	c.Set("slow_reader_found_before_writer_returned", foundEarly)
+	if roundsWithOverlap*2 < int64(rounds) {
+		c.Inconclusive(fmt.Sprintf("slow readers overlapped the writer's fetch in only %d of %d rounds", roundsWithOverlap, rounds))
+	}
 }
